@@ -1,11 +1,11 @@
 package fsad
 
 import (
-	"strings"
 	"bytes"
 	"fmt"
 	"math/rand"
 	"sort"
+	"strings"
 
 	"github.com/hack-pad/hackpadfs"
 	"github.com/hack-pad/hackpadfs/mem"
@@ -32,12 +32,12 @@ type MAdapter struct{ Cfg MConfig }
 func (a *MAdapter) Name() string { return a.Cfg.AdapterName }
 
 type MInst struct {
-	cfg   *MConfig
-	mfs   *mount.FS
-	parts map[int64]hackpadfs.FS // constituent file systems by model id
-	probe *Inst                  // reuses the FSCore call/result machinery on the mount FS
-	root0 *tla.Value             // initial tree of the root FS (template for freshly mounted file systems)
-	dirty bool
+	cfg    *MConfig
+	mfs    *mount.FS
+	parts  map[int64]hackpadfs.FS // constituent file systems by model id
+	probe  *Inst                  // reuses the FSCore call/result machinery on the mount FS
+	root0  *tla.Value             // initial tree of the root FS (template for freshly mounted file systems)
+	dirty  bool
 	state  *tla.Value // model state before the call (engine.StateAware)
 	faults []string
 	ctl    *faultCtl // non-nil: every constituent file system is wrapped and fails its ctl.failAt-th primitive call
